@@ -292,6 +292,19 @@ def _cpp(R, rng, ctx, i):
                 R.add([K.V(f"cpp:{key}", f"cse={c}: {txt}", **w)])
             if c and R.stats.counters.get("temporaries_checked", 0) - n_before >= 2:
                 R.fps.append(fp)
+            # the same generator object rendered once more (a build script that writes the source twice, or
+            # inspects the bodies before writing): the elimination must not have consumed its own input
+            try:
+                from formak import cpp as _cpp_mod
+
+                again = "\n".join(_cpp_mod.source_from_ast(generator=eb.generator))
+                R.stats.inc("second_renderings_checked")
+                for key, txt in check_temporaries(again, c, R.stats):
+                    R.add([K.V(f"cpp:{key}", f"cse={c}, second rendering of the same generator: {txt}", **w)])
+                if again != eb.source:
+                    R.add([K.V("cpp:second-rendering-differs", f"cse={c}: rendering the same generator twice gives different source text", **w)])
+            except Exception as e:  # noqa: BLE001
+                R.add([K.V(K.exc_key("cpp:generate-again", e), f"second rendering raised (cse={c}): {K.exc_text(e)}", traceback=K.tb_text(e), **w)])
             R.evals += 1
             if not eb.ok:
                 R.add([K.V("cpp:does-not-compile", f"generated code (cse={c}) does not compile ({compiler}): {eb.compile_err[-1500:]}", **w)])
